@@ -15,6 +15,8 @@ VERIF = gen.VERIF
 # failed obligation (regex on the obligation id) -> finder test in replay/finder.rs
 FINDERS = [
     (r'TextSelection::test(/|_set/)|TextSelectionSet::test|toggle_negate|toggle_all|with_limit|rightmost|leftmost', 'find_rel_pair'),
+    (r'TextSelection::(textselection_by_offset|beginaligned_cursor|relative_|absolute_offset)', 'find_relative_offsets'),
+    (r'subselectors__', 'find_subselectors'),
     (r'textselection_by_offset|beginaligned_cursor', 'find_offset_accept'),
     (r'LimitIter', 'find_limit_slice'),
     (r'Handles', 'find_handles_setops'),
